@@ -192,8 +192,12 @@ def r06_2(ctx: Ctx):
         return s
 
     at, exits, parent = typestate(cfg, ["OUT"], node_fn, edge_fn)
+    from .common import opaque_deme_calls
+
+    oc = opaque_deme_calls(ctx, f, f.node, "_hibernating")
     for n, s, msg in viol:
-        obs.append(ctx.ob("R06.2", f, n.stmt, status=VIOLATION, detail=msg, witness=witness_path(cfg, parent, n.id, s), construct="iteration-paths"))
+        skip_msg = msg.startswith("an iteration can finish without stepping")
+        obs.append(ctx.ob("R06.2", f, n.stmt, status=INCONCLUSIVE if (oc and skip_msg) else VIOLATION, detail=msg if not (oc and skip_msg) else f"an iteration can skip its deme under `{norm(oc[0])[:60]}`: whether that is the hibernation skip is decided inside that method", witness=witness_path(cfg, parent, n.id, s), construct="iteration-paths"))
     if not viol:
         obs.append(ctx.ob("R06.2", f, f.node, detail="every iteration steps its deme exactly once or is a hibernation skip", construct="iteration-paths"))
     # the accessor filters on is_active
@@ -259,7 +263,7 @@ def r06_3(ctx: Ctx):
     """R06.3 every path of every concrete run_metaepoch appends to the history exactly once; only `.append` ever touches `_history`."""
     obs = []
     for ci in ctx.concrete_demes():
-        f = ctx.prog.lookup_method(ci, "run_metaepoch")
+        f = __import__("hmslint.rules.common", fromlist=["step_method"]).step_method(ctx, ci)
         counts = append_summary(ctx, f)
         ok = counts == {1}
         obs.append(ctx.ob("R06.3", f, f.node, status=OK if ok else VIOLATION, detail="exactly one history append on every path" if ok else f"paths through run_metaepoch append to the history {sorted(counts)} times (2 = two or more)", construct=f"{ci.name}.run_metaepoch appends"))
@@ -295,7 +299,7 @@ def r06_4(ctx: Ctx):
     """R06.4 deactivation is reached only on GSC-true / LSC-true-after-append / engine-stop / one-shot, and such verdicts always deactivate."""
     obs = []
     for ci in ctx.concrete_demes():
-        f = ctx.prog.lookup_method(ci, "run_metaepoch")
+        f = __import__("hmslint.rules.common", fromlist=["step_method"]).step_method(ctx, ci)
         cfg = ctx.cfg(f)
         selfn = f.self_name()
         stores = [n for n in cfg.nodes if n.kind == "stmt" and active_store(n.ast, selfn) is not None]
@@ -358,6 +362,12 @@ def r06_4(ctx: Ctx):
             obs.append(ctx.ob("R06.4", f, n.stmt, status=INCONCLUSIVE, detail="stop condition consulted inside a compound expression", construct=n.label))
             continue
         normal = exits.normal()
+        from .common import opaque_step_helpers
+
+        if opaque_step_helpers(ctx, f) and (viol or any(((s_[0] or s_[1] is True) and not s_[4]) or (not s_[0] and not s_[2] and s_[1] is None and not s_[4]) for s_ in normal)):
+            c0 = opaque_step_helpers(ctx, f)[0]
+            obs.append(ctx.ob("R06.4", f, c0, status=INCONCLUSIVE, detail=f"{ci.name}: part of the metaepoch (evaluations, stop-condition consults) runs inside `{norm(c0.func)}`, which this rule does not follow", construct="opaque-helper"))
+            continue
         one_shot = bool(normal) and all(s[4] for s in normal) and all(not (s[0] or s[1] is True or s[2]) or True for s in normal) and not any(cond_consult(ctx, f, n, "gsc") or cond_consult(ctx, f, n, "lsc") for n in cfg.nodes)
         seen = set()
         if one_shot:
@@ -460,7 +470,7 @@ def r06_8(ctx: Ctx):
     obs = []
     found = 0
     for ci in ctx.concrete_demes():
-        f = ctx.prog.lookup_method(ci, "run_metaepoch")
+        f = __import__("hmslint.rules.common", fromlist=["step_method"]).step_method(ctx, ci)
         selfn = f.self_name()
         # engine attribute with an external strategy object that has ask/tell
         tells = [c for c in body_walk(f.node) if isinstance(c, ast.Call) and isinstance(c.func, ast.Attribute) and c.func.attr == "tell" and is_self_attr(c.func.value, None, selfn)]
